@@ -90,6 +90,8 @@ def gram_passes(pid, tier):
         P.append(('NT2 T2 R<=%d' % (3 if q else 4), base + ['--nt', '2', '--t', '2', '--err', '0', '--maxR', '3' if q else '4', '--maxlen', '4', '--prec-levels', '2' if q else '3', '--rprec-max', '1' if q else '3'] + ([] if q else ['--prec-base', '-1'])))
         if not q:
             P.append(('operator grammars NT1 T3 R=4 W 6..8', base + ['--nt', '1', '--t', '3', '--err', '0', '--minR', '4', '--maxlen', '5', '--prec-levels', '3', '--rprec-max', '2']))
+    if pid in ('C01', 'C02', 'C05', 'C08', 'C09', 'C11', 'C16'):
+        P.append(('realistic seed grammars (JSON, layered expression grammar with calls, 5-operator grammar with declared precedence, statements with error recovery), all one-symbol variants, strings<=3 over 8-11 terminals + every sentence of the seed up to %d tokens and its one-token deletions' % (7 if q else 8), base + ['--maxlen', '3', '--sentences', '7' if q else '8', '--neighbours', '--max-per-frame', '0', '--seeds', os.path.join(VERIF, 'seeds', 'gram_big_seeds.txt')], 'big'))
     return ('quick' if q else 'thorough'), P
 
 GRAM_RULE = {
@@ -112,19 +114,23 @@ def gram_replay_cmd(exe, v, pid):
 
 def run_gram(pid, tier, rep, deadline_s):
     setname, passes = gram_passes(pid, tier)
-    exe = common.build_gram(setname)
-    if isinstance(exe, tuple):
-        harness_error('the white-box harness does not compile against this tree:\n' + exe[1])
+    exes = {}
+    for s_ in sorted(set([setname] + [p[2] for p in passes if len(p) > 2])):
+        e_ = common.build_gram(s_)
+        if isinstance(e_, tuple): harness_error('the white-box harness does not compile against this tree:\n' + e_[1])
+        exes[s_] = e_
+    exe = exes[setname]
     merged_all = []
     bounds = []
     work = os.path.join(BUILD, 'run-%s-%s%s' % (pid, tier, ('-%d' % os.getpid()) if _SCRATCH else ''))
     shutil.rmtree(work, ignore_errors=True)
     exhaustive = True
-    for pi, (label, args) in enumerate(passes):
+    for pi, pss in enumerate(passes):
+        label, args = pss[0], pss[1]; pexe = exes[pss[2]] if len(pss) > 2 else exe
         remaining = deadline_s - (time.time() - rep.t0)
         if remaining < 5:
             exhaustive = False; bounds.append({'pass': label, 'completed': False}); continue
-        res = common.run_shards(exe, args + ['--deadline', str(int(remaining))], os.path.join(work, 'p%d' % pi), timeout=remaining + 120)
+        res = common.run_shards(pexe, args + ['--deadline', str(int(remaining))], os.path.join(work, 'p%d' % pi), timeout=remaining + 120)
         m = common.merge(res)
         merged_all.append(m)
         done = not m['deadline_hit'] and not m['timeouts']
@@ -152,7 +158,9 @@ def run_gram(pid, tier, rep, deadline_s):
         seen_kind[kk] = seen_kind.get(kk, 0) + 1
         confirmed = None
         if not v['known']:
-            r = sh(gram_replay_cmd(exe, v, pid))
+            for e_ in [exe] + [x for x in exes.values() if x != exe]:
+                r = sh(gram_replay_cmd(e_, v, pid))
+                if 'no compiled frame' not in r.stderr: break
             confirmed = (r.returncode == 1)
             if r.returncode not in (0, 1): confirmed = None
             if confirmed is False:
@@ -231,7 +239,7 @@ def dsl_conformance(tier, exe):
 def replay_gram(pid, path):
     v = json.load(open(path))
     exe = None
-    for s in ('quick', 'thorough'):
+    for s in ('quick', 'big', 'thorough'):
         e = common.build_gram(s)
         if isinstance(e, tuple): harness_error('harness does not compile: ' + e[1])
         r = sh(gram_replay_cmd(e, v, pid))
@@ -738,6 +746,8 @@ def main(argv):
         if argv[0] == '--setup':
             t = time.time()
             e = common.build_gram('quick')
+            if isinstance(e, tuple): print(e[1]); return 2
+            e = common.build_gram('big')
             if isinstance(e, tuple): print(e[1]); return 2
             e = common.build_rx()
             if isinstance(e, tuple): print(e[1]); return 2
